@@ -30,7 +30,7 @@ type C13Case struct {
 }
 
 func GenC13(t *rapid.T) *C13Case {
-	cfg := TreeCfg{MaxDepth: 4, MaxWidth: 4, MaxStr: 5, KeyGen: func(t *rapid.T) string {
+	cfg := TreeCfg{MaxDepth: 4, MaxWidth: 4, MaxStr: 5, LongLists: true, KeyGen: func(t *rapid.T) string {
 		return []string{"a", "b", "c", "", "k.1", "é"}[drawIdx(t, 6, "key")]
 	}}
 	tree := GenRoot(t, cfg)
